@@ -100,20 +100,21 @@ fn cand(b0: u8, ip3: u8) -> Node {
 /// yet, in the accumulator's order; visit_closest() sends the lookup's request to exactly those, marks
 /// them visited, and a second call sends nothing: no address is ever queried twice.
 #[kani::proof]
-#[kani::unwind(22)]
+#[kani::unwind(4)]
 #[kani::stub(KrpcSocket::request, stub_request)]
-#[kani::stub(Id::is_valid_for_ip, stub_valid)]
 fn c07_visit_closest_queries_every_unvisited_candidate_exactly_once() {
     let mut q = query(3, id1(0));
     let a = cand(0x10, 2); // closer to target 00..
     let b = cand(0x20, 2);
     let have_a: bool = kani::any();
     let have_b: bool = kani::any();
-    if have_b {
-        q.closest.add(b.clone());
-    }
+    // the accumulator is built directly, in its order (that add() keeps that order is C11's
+    // obligation); this keeps the unwinding bound at the number of candidates
     if have_a {
-        q.closest.add(a.clone());
+        crate::common::verif_kani::closest_nodes::push_raw(&mut q.closest, a.clone());
+    }
+    if have_b {
+        crate::common::verif_kani::closest_nodes::push_raw(&mut q.closest, b.clone());
     }
     let a_visited: bool = kani::any();
     if a_visited {
